@@ -15,9 +15,9 @@ kproof! {
         let q = q.unwrap();
         assert!(q == p, "parameters read back differ from the ones written");
         assert!(rec.fully_consumed());
-        kani::cover!(matches!(p.predictor.add_policy, DictionaryAddPolicy::AddFirst(257)), "AddFirst(257)");
+        kani::cover!(matches!(p.predictor.add_policy, DictionaryAddPolicy::AddFirst(255)), "AddFirst(255)");
         kani::cover!(matches!(p.predictor.hash_algorithm, HashAlgorithm::Zlib{..}), "zlib hash");
-        kani::cover!(p.predictor.min_len == u32::MAX, "no reference seen (min_len unset)");
+        kani::cover!(p.predictor.min_len == 0, "no reference seen (min_len unset)");
     }
 }
 
@@ -40,7 +40,6 @@ kproof! {
     /// build for every parameter vector: field order and widths of the header are part of the format
     fn k04f_param_header_equiv() {
         let p = any_predictor_params();
-        kani::assume(p.min_len != u32::MAX);
         let (lazy, gl, ml) = match p.matching_type { MatchingType::Greedy => (0u32, 0u32, 0u32), MatchingType::Lazy { good_length, max_lazy } => (1, good_length as u32, max_lazy as u32) };
         let (pk, pl) = match p.add_policy {
             DictionaryAddPolicy::AddAll => (0u32, 0u32), DictionaryAddPolicy::AddFirst(v) => (1, v as u32), DictionaryAddPolicy::AddFirstAndLast(v) => (2, v as u32),
@@ -81,4 +80,76 @@ kproof! {
         }
         kani::cover!(stored, "stored"); kani::cover!(!stored, "huffman only");
     }
+}
+
+use crate::complevel_estimator::CompLevelInfo;
+use crate::preflate_token::{BlockType, PreflateToken, PreflateTokenBlock};
+
+/// stand-in for the compression-level estimator (five boxed 64K tables: out of reach): any result in
+/// recommend()'s range, with add_policy and min_len passed through exactly as the real one does
+pub fn stub_comp_level(_wbits: u32, _mem_level: u32, min_len: u32, _plain: &[u8], add_policy: DictionaryAddPolicy, _blocks: &Vec<PreflateTokenBlock>) -> Result<CompLevelInfo> {
+    if kani::any() {
+        return Err(PreflateError::new(ExitCode::PredictBlock, ""));
+    }
+    let (match_type, nice_length) = any_match_row();
+    let max_chain: u32 = kani::any();
+    kani::assume(max_chain >= 1 && max_chain <= 4096);
+    Ok(CompLevelInfo {
+        zlib_compatible: kani::any(), reference_count: 0, unfound_references: 0, matches_to_start_detected: kani::any(),
+        very_far_matches_detected: kani::any(), max_dist_3_matches: kani::any(), min_len, add_policy, hash_algorithm: any_hash_algorithm(),
+        match_type, nice_length, max_chain,
+    })
+}
+/// stand-in for estimate_add_policy: any policy in its range (range discharged by k02h_add_policy_range)
+pub fn stub_add_policy(_b: &[PreflateTokenBlock]) -> DictionaryAddPolicy { any_add_policy() }
+
+fn info_params<const NB: usize>() {
+    let mut blocks: Vec<PreflateTokenBlock> = Vec::with_capacity(NB);
+    let mut b = 0;
+    while b < NB {
+        let k: u8 = kani::any();
+        kani::assume(k <= 2);
+        let mut blk = PreflateTokenBlock::new(match k { 0 => BlockType::Stored, 1 => BlockType::StaticHuff, _ => BlockType::DynamicHuff });
+        let nt: usize = kani::any();
+        kani::assume(nt <= 2);
+        let mut i = 0;
+        while i < 2 {
+            if i < nt {
+                if k == 0 { blk.uncompressed.push(kani::any()); }
+                else if kani::any() { blk.tokens.push(PreflateToken::Literal(kani::any())); }
+                else {
+                    let l: u32 = kani::any(); let d: u32 = kani::any();
+                    kani::assume(l >= 3 && l <= 258 && d >= 1 && d <= 32768);
+                    blk.tokens.push(PreflateToken::new_reference(l, d, false));
+                }
+            }
+            i += 1;
+        }
+        blocks.push(blk);
+        b += 1;
+    }
+    let plain = [0u8; 4];
+    let r = estimate_preflate_parameters(&plain, &blocks);
+    if let Ok(p) = &r {
+        let mut rec = Rec::new();
+        p.write(&mut rec);
+        let q = PreflateParameters::read(&mut rec);
+        assert!(q.is_ok());
+        assert!(q.unwrap() == *p, "estimated parameters do not survive their own header");
+        assert!(rec.fully_consumed());
+    }
+    kani::cover!(matches!(&r, Ok(p) if p.predictor.hash_algorithm == HashAlgorithm::None), "no-dictionary vector");
+    kani::cover!(matches!(&r, Ok(p) if p.predictor.window_bits == 15), "32K window");
+    if NB == 2 {
+        kani::cover!(matches!(&r, Ok(p) if p.predictor.min_len == 0 && p.predictor.hash_algorithm != HashAlgorithm::None), "dictionary branch without any reference");
+    }
+    core::mem::forget(r); core::mem::forget(blocks);
+}
+kproof! {
+    /// K05d: the estimator front end (extract_preflate_info, strategy selection, window/mem level) plus the
+    /// parameter header: for every small block list, estimate_preflate_parameters is total and what it returns
+    /// survives write -> read.  The two table-based estimators are replaced by range stubs.
+    #[kani::stub(crate::complevel_estimator::estimate_preflate_comp_level, stub_comp_level)]
+    #[kani::stub(crate::add_policy_estimator::estimate_add_policy, stub_add_policy)]
+    fn k05d_info_params() { info_params::<2>(); }
 }
